@@ -55,11 +55,11 @@ package runner
 //@        && (forall k int :: old(tlen()) <= k && k < tlen() ==> !evIs(k, "internal/cmd/runner:Step.Run"))
 //@   ensures [active_runs_parent_once] s.active ==> (exists k int :: old(tlen()) <= k && k < tlen() && evIs(k, "internal/cmd/runner:Step.Run") && evRecv(k) == s.parent && result == evErr(k)
 //@        && (forall k2 int :: old(tlen()) <= k2 && k2 < tlen() && k2 != k ==> !evIs(k2, "internal/cmd/runner:Step.Run")))
-//@   ensures [indents_once] s.active ==> (exists a int :: old(tlen()) <= a && a < tlen() && evIs(a, "internal/cmd/runner:indenter.Indent")
+//@   ensures [indents_once C10 C12 C16] s.active ==> (exists a int :: old(tlen()) <= a && a < tlen() && evIs(a, "internal/cmd/runner:indenter.Indent")
 //@        && (forall k int :: old(tlen()) <= k && k < tlen() && k != a ==> !evIs(k, "internal/cmd/runner:indenter.Indent")))
 //@   ensures [unindents_once] s.active ==> (exists b int :: old(tlen()) <= b && b < tlen() && evIs(b, "internal/cmd/runner:indenter.EndIndent")
 //@        && (forall k int :: old(tlen()) <= k && k < tlen() && k != b ==> !evIs(k, "internal/cmd/runner:indenter.EndIndent")))
-//@   ensures [unindent_follows_indent] forall b int :: old(tlen()) <= b && b < tlen() && evIs(b, "internal/cmd/runner:indenter.EndIndent") ==>
+//@   ensures [unindent_follows_indent C10 C12 C16] forall b int :: old(tlen()) <= b && b < tlen() && evIs(b, "internal/cmd/runner:indenter.EndIndent") ==>
 //@        (exists a int :: old(tlen()) <= a && a < b && evIs(a, "internal/cmd/runner:indenter.Indent"))
 //@   ensures [inactive_does_not_indent] !s.active ==> (forall k int :: old(tlen()) <= k && k < tlen() ==> !evIs(k, "internal/cmd/runner:indenter.Indent") && !evIs(k, "internal/cmd/runner:indenter.EndIndent"))
 
